@@ -3,9 +3,9 @@
 package schema
 
 import (
-	"strconv"
 	"fmt"
 	"sort"
+	"strconv"
 	"strings"
 )
 
@@ -351,15 +351,15 @@ type TSum struct {
 	Default  string
 	HasDef   bool
 	Patterns []string
-	Posix    []string // accumulated posix-patterns
-	Range    string   // the range restriction written on the built-in at the bottom of the chain ("" = none)
-	Enums    []string // members of the enumeration the chain ends in
+	Posix    []string         // accumulated posix-patterns
+	Range    string           // the range restriction written on the built-in at the bottom of the chain ("" = none)
+	Enums    []string         // members of the enumeration the chain ends in
 	EnumMap  map[string]int64 // their values by RFC 7950 9.6.4.2 (nil when the chain does not end in an enumeration)
 	BitMap   map[string]int64 // positions of the bits by 9.7.4.2 (nil when the chain does not end in bits)
 	Length   string           // the length restriction written at the bottom of the chain ("" = none)
-	Path     string   // leafref path
-	Members  []string // base kinds of the union members, in written order
-	Frac     int      // fraction-digits
+	Path     string           // leafref path
+	Members  []string         // base kinds of the union members, in written order
+	Frac     int              // fraction-digits
 	Err      string
 }
 
